@@ -9,8 +9,8 @@ ops:
   {"op":"tokens","type":T,"cc":…,"text":[cp…]}                        → {"ok":true,"vals":[V…]} | {"ok":false,"left":n}
   {"op":"proc","name":N,"text":[cp…]}                                 → {"val":V}
   {"op":"kwlike","cc":…,"lits":[[cp…]…],"icase":b}                     → {"kw":[b…]}
-  {"op":"compile","cc":…,"lit":[cp…],"autokwd":b,"icase":b}            → {"kind":"str"|"re","re":AST?}
-  {"op":"parse","cc":…,"g":PE,"autokwd":b,"icase":b,"text":[cp…]}      → {"ok":b,"toks":[[pos,[cp…]]…]}
+  {"op":"compile","cc":…,"lits":[[cp…]…],"autokwd":b,"icase":b}        → {"toks":[{"kind":"str","lit":…,"icase":b}|{"kind":"re","re":AST,"value":[cp…]}…]}
+  {"op":"parse","cc":…,"g":PE,"icase":b,"text":[cp…]}                  → {"on":P,"off":P}, P = {"ok":b,"toks":[[pos,[cp…]]…]} (autokwd on / off)
 V = {"b":bool} | {"s":[cp…]} | {"i":"decimal"} | {"f":[cp…]}
 -/
 open Lean Wire Re
@@ -159,20 +159,23 @@ def handle (j : Json) : Json :=
     | some cc, some lits, some ic => Json.mkObj [("kw", toJson (lits.map (Kwd.isKeywordLike cc ic)))]
     | _, _, _ => badOp
   | some "compile" =>
-    match cc? j, (getObj? j "lit").bind chars?, getBool? j "autokwd", getBool? j "icase" with
-    | some cc, some lit, some ak, some ic =>
-      match Kwd.compileLit cc ⟨ak, ic⟩ lit with
-      | .str l i => Json.mkObj [("kind", "str"), ("lit", cps l), ("icase", toJson i)]
-      | .re r _ => Json.mkObj [("kind", "re"), ("re", reJ r)]
+    match cc? j, (getArr? j "lits").bind (fun a => a.toList.mapM chars?), getBool? j "autokwd", getBool? j "icase" with
+    | some cc, some lits, some ak, some ic =>
+      Json.mkObj [("toks", toJson (lits.map fun lit =>
+        match Kwd.compileLit cc ⟨ak, ic⟩ lit with
+        | .str l i => Json.mkObj [("kind", "str"), ("lit", cps l), ("icase", toJson i)]
+        | .re r v => Json.mkObj [("kind", "re"), ("re", reJ r), ("value", match v with | some l => cps l | none => Json.null)]))]
     | _, _, _, _ => badOp
   | some "parse" =>
-    match cc? j, (getObj? j "g").bind pe?, getBool? j "autokwd", getBool? j "icase", (getObj? j "text").bind chars? with
-    | some cc, some g, some ak, some ic, some text =>
-      match Kwd.parseText cc ⟨ak, ic⟩ g text with
-      | some toks => Json.mkObj [("ok", toJson true),
-          ("toks", toJson (toks.map fun (p, v) => toJson [toJson p, cps v]))]
-      | none => Json.mkObj [("ok", toJson false)]
-    | _, _, _, _, _ => badOp
+    match cc? j, (getObj? j "g").bind pe?, getBool? j "icase", (getObj? j "text").bind chars? with
+    | some cc, some g, some ic, some text =>
+      let run (ak : Bool) : Json :=
+        match Kwd.parseText cc ⟨ak, ic⟩ g text with
+        | some toks => Json.mkObj [("ok", toJson true),
+            ("toks", toJson (toks.map fun (p, v) => toJson [toJson p, cps v]))]
+        | none => Json.mkObj [("ok", toJson false)]
+      Json.mkObj [("on", run true), ("off", run false)]
+    | _, _, _, _ => badOp
   | _ => badOp
 
 def main : IO Unit := serve handle
